@@ -203,7 +203,7 @@ func runBktScenario(rep *Report, sc bktScenario, tag string) {
 		beforeSet := map[string]bool{}
 		bb.pgids(beforeSet)
 		delete(beforeSet, "0")
-		add("orig "+bkCanon(before, nil), "ok a=true o=true w=true") // the file content equals the reference model's state; the decidable well-formedness holds on it
+		add("orig "+bkCanon(before, nil), "ok a=true o=true w=true z=true") // the file content equals the reference model's state; the decidable well-formedness holds on it
 		fill := t.Fill
 		if fill < 0.1 {
 			fill = 0.1
